@@ -31,6 +31,7 @@ type productQuantizer struct {
 	originalVectorLen int
 	subVectorLen      int
 	distFnName        string
+	unfittedDistFn    distance.FloatDistFunc // configured metric, used on full vectors until fitted
 	// ---------------------------
 	items         *cache.ItemCache[uint64, *productQuantizedPoint]
 	centroidDists []float32 // shape (num_subvectors * num_centroids * num_centroids)
@@ -47,6 +48,10 @@ func newProductQuantizer(bucket diskstore.Bucket, distFnName string, params mode
 	// Check the distance function is compatiable
 	if distFnName != models.DistanceEuclidean && distFnName != models.DistanceCosine && distFnName != models.DistanceDot {
 		return nil, fmt.Errorf("distance function %s not supported for product quantisation", distFnName)
+	}
+	unfittedDistFn, err := distance.GetFloatDistanceFn(distFnName)
+	if err != nil {
+		return nil, fmt.Errorf("could not get distance function %s: %w", distFnName, err)
 	}
 	// Handle cosine distance
 	if distFnName == models.DistanceCosine {
@@ -71,6 +76,7 @@ func newProductQuantizer(bucket diskstore.Bucket, distFnName string, params mode
 	pq := &productQuantizer{
 		params:            params,
 		distFn:            distFn,
+		unfittedDistFn:    unfittedDistFn,
 		distFnName:        distFnName,
 		originalVectorLen: vectorLen,
 		subVectorLen:      vectorLen / params.NumSubVectors,
@@ -244,7 +250,7 @@ func (pq *productQuantizer) DistanceFromFloat(x []float32) PointIdDistFn {
 				log.Warn().Uint64("id", y.Id()).Msg("point not found for pq distance calculation")
 				return math.MaxFloat32
 			}
-			return pq.distFn(x, pointY.Vector)
+			return pq.unfittedDistFn(x, pointY.Vector)
 		}
 	}
 	// ---------------------------
@@ -286,7 +292,7 @@ func (pq *productQuantizer) DistanceFromPoint(x VectorStorePoint) PointIdDistFn 
 				log.Warn().Uint64("idX", x.Id()).Uint64("idY", y.Id()).Msg("point not found for distance calculation")
 				return math.MaxFloat32
 			}
-			return pq.distFn(pointX.Vector, pointY.Vector)
+			return pq.unfittedDistFn(pointX.Vector, pointY.Vector)
 		}
 	}
 	// We have encoded, so we will use the centroid distances
